@@ -6,6 +6,7 @@
 import SLV.Model.Bi
 import SLV.Model.Cond
 import SLV.Model.Fuse
+import SLV.Model.Prod
 namespace SLV.Pinned
 open SLV Scalar BOp
 
@@ -196,6 +197,64 @@ def mbr (ax : Tab α n) (conds : CondTab α n m) : Option (Tab α m) :=
       Tab.sumIter (Vector.ofFn fun x : Fin n => ax[x] * (conds[x]).b[y])
     let sumA := Tab.sumLoop raw
     some (raw.map fun a => a / sumA)
+
+
+/-- `InverseCondition::inverse` (src/mul.rs:881-926) -/
+def inverse (conds : CondTab α n m) (ax : Tab α n) (ay : Tab α m) : CondTab α m n :=
+  let pyx : Vector (Tab α m) n := conds.map fun c => c.projection ay
+  let uyx : Tab α n := Vector.ofFn fun x => (conds[x]).maxUncertainty ay
+  let temp : Vector (Tab α n) m := Vector.ofFn fun y =>
+    let allZero := (List.finRange n).all fun x => Scalar.eq (pyx[x])[y] Scalar.zero
+    if allZero then Vector.replicate n Scalar.one
+    else
+      let q := Tab.sumIter (Vector.ofFn fun x : Fin n => ax[x] * (pyx[x])[y])
+      Vector.ofFn fun x => (pyx[x])[y] / q
+  let pxy : Vector (Tab α n) m := Vector.ofFn fun y => Vector.ofFn fun x => (temp[y])[x] * ax[x]
+  let irrel : Tab α m := Vector.ofFn fun y =>
+    Scalar.one - Tab.reduceMax (Vector.ofFn fun x : Fin n => (pyx[x])[y])
+      + Tab.reduceMin (Vector.ofFn fun x : Fin n => (pyx[x])[y])
+  let maxUxy : Tab α m := Vector.ofFn fun y => Tab.reduceMin (temp[y])
+  let uyxSum := Tab.sumIter uyx
+  let weights : Tab α n :=
+    if Scalar.eq uyxSum Scalar.zero then Vector.replicate n Scalar.zero
+    else Vector.ofFn fun x => uyx[x] / uyxSum
+  let maxUyx : Tab α n := Vector.ofFn fun x =>
+    Tab.reduceMin (Vector.ofFn fun y : Fin m => (pyx[x])[y] / ay[y])
+  let weightedU : Tab α n := Vector.ofFn fun x =>
+    let u := maxUyx[x]
+    if isZero u then Scalar.zero else weights[x] * uyx[x] / u
+  let wprop := Tab.sumIter weightedU
+  Vector.ofFn fun y =>
+    let u := maxUxy[y] * (wprop + irrel[y] - wprop * irrel[y])
+    let b : Tab α n := Vector.ofFn fun x => (pxy[y])[x] - u * ax[x]
+    Simplex.normalized b u
+
+
+/-- `MergeJointConditions2::merge_cond2` (src/mul.rs:1049-1060).
+    `validate = true` is the unlabelled family (its `product2` validates and may panic). -/
+def mergeCond2 {n1 n2 m : Nat} (validate : Bool)
+    (yx1 : CondTab α n1 m) (yx2 : CondTab α n2 m)
+    (ax1 : Tab α n1) (ax2 : Tab α n2) (ay : Tab α m) :
+    Except Label (CondTab α (n1 * n2) m) :=
+  let ay1 := (SLV.mbr ax1 yx1).getD ay
+  let ay2 := (SLV.mbr ax2 yx2).getD ay
+  let x1y := Pinned.inverse yx1 ax1 ay1
+  let x2y := Pinned.inverse yx2 ax2 ay2
+  let cells : Vector (Except Label (Simplex α (n1 * n2))) m := Vector.ofFn fun y =>
+    let w1 : Opinion α n1 := Opinion.mk' x1y[y] ax1
+    let w2 : Opinion α n2 := Opinion.mk' x2y[y] ax2
+    if validate then
+      match product2U w1 w2 with
+      | .error e => .error e
+      | .ok w => .ok w.simplex
+    else .ok (product2L w1 w2).simplex
+  match sequenceE cells with
+  | .error e => .error e
+  | .ok x12y =>
+    let ax12 := match SLV.mbr ay x12y with
+      | some a => a
+      | none => outer2 ax1 ax2
+    .ok (Pinned.inverse x12y ay ax12)
 
 
 end SLV.Pinned
